@@ -71,15 +71,20 @@ static unsigned long long vm_scan(const char * s, int base, int * neg, int * ovf
         i += 2;
     }
     start = i;
-    while (vm_digit((unsigned char) s[i], base) >= 0) {
-        unsigned long long d = (unsigned long long) vm_digit((unsigned char) s[i], base);
-        if (acc > (ULLONG_MAX - d) / (unsigned long long) base) {
-            *ovf = 1;
-            acc = ULLONG_MAX;
-        } else if (!*ovf) {
-            acc = acc * (unsigned long long) base + d;
+    {
+        /* overflow test without a per-digit division (a 64-bit divider per digit dominated the formula) */
+        const unsigned long long lim = ULLONG_MAX / (unsigned long long) base;
+        const unsigned long long rem = ULLONG_MAX % (unsigned long long) base;
+        while (vm_digit((unsigned char) s[i], base) >= 0) {
+            unsigned long long d = (unsigned long long) vm_digit((unsigned char) s[i], base);
+            if (acc > lim || (acc == lim && d > rem)) {
+                *ovf = 1;
+                acc = ULLONG_MAX;
+            } else if (!*ovf) {
+                acc = acc * (unsigned long long) base + d;
+            }
+            i++;
         }
-        i++;
     }
     if (i == start) {
         *consumed = 0;
@@ -253,6 +258,11 @@ float strtof(const char * nptr, char ** endptr) {
     vm_record(nptr, consumed, 0);
     vm_strtod_value = (double) f;
     return f;
+}
+
+/* gcc's isfinite() macro expands to this builtin, for which CBMC 6.11 has no body */
+int __builtin_isfinite(double x) {
+    return !__CPROVER_isnand(x) && !__CPROVER_isinfd(x);
 }
 
 size_t strnlen(const char * s, size_t maxlen) {
